@@ -21,6 +21,7 @@ CONSTANTS
   AbandonGate = 1
   FaultGate = 1
   StartOps = {"b", "c", "d"}
+  Want = {"lostDropThenPush", "lagged"}
   EnvAbandon = FALSE
   EnvHold = TRUE
 INIT DInit
